@@ -95,6 +95,19 @@ func scenC17(c *ctx) {
 	for _, s := range []string{"", "0", "g", "0g", "132d0b6", "0000000000000000", "ffffffffffffffff", "FFFFFFFFFFFFFFFF", "1234567890abcdef0", " 12", "12 ", "+12", "-12", "0x12", "zz"} {
 		c.rec.Emit(doParseHexTimestamp(k("phts"), s))
 	}
+	// the Must helper has no error result: text that is not hex is rejected by its documented panic, and a good
+	// call right after it is unaffected
+	for i, s := range []string{"g", "0g", "g0", "zz", " 12", "12 ", "+12", "-1", "0x12", "12345G", "abcdefg", "\x00\x00", "ＡＢ", "1 2", "1234567890abcdeX", "X234567890abcdef"} {
+		for _, size := range []int{len(s), len(s)/2 + 1, 8, 20} {
+			c.rec.Emit(doMustHexPadLeft(k("mhpbad"), s, size))
+		}
+		c.rec.Emit(doMustHexPadLeft(k("mhpafter"), c.hexString(2+i), 8))
+	}
+	for i := 0; i < c.n(20, 400); i++ {
+		b := []byte(c.hexString(1 + c.rng.Intn(30)))
+		b[c.rng.Intn(len(b))] = "gGxX zZ-+.,:/@`"[c.rng.Intn(15)]
+		c.rec.Emit(doMustHexPadLeft(k("mhpbadrnd"), string(b), len(b)/2+c.rng.Intn(3)))
+	}
 	// HexInputToOCRA: all 2^5 x {valid, invalid, empty}
 	valid := func() string { return c.hexString(2 * c.rng.Intn(20)) }
 	invalid := func() string {
